@@ -11,13 +11,18 @@
     matches exactly the bytes `x` in front of `rest`, logs nothing, ends in frame `fr'` with
     value `v`.
   * `Fails rule e fr s off errs` — `e` does not match at `s`, logs nothing.
-  * RESTRICTION of this file: the input is ASCII (`Asc`: every byte `< 0x80`).  Multi-byte runes
-    would need the stepping lemma for well-formed UTF-8; the grammar's tokens other than string
-    bodies and `\pL\pN` pointer segments are ASCII anyway.
+  * The input is VALID UTF-8 TEXT (`VT`, `Proofs/Utf8Text.lean`: Go's `utf8.ValidString`): a
+    `read` that lands on valid text logs nothing (`logRead_vt`), reading an ASCII byte advances
+    by one (`ptAt_next_cons`), reading a well-formed multi-byte rune by the width of its encoding
+    (`ptAt_next_rune`).  The grammar's tokens other than string bodies and `\pL\pN` pointer
+    segments are ASCII (`Asc`), so literals, blanks, identifiers and numbers are stated for
+    ASCII tokens in front of valid text; a multi-byte rune never matches an ASCII literal or an
+    ASCII-only class (`semLit_fail`, `Fails.cls`).
 -/
 import Bexpr.Driver
 import Props.C15
 import Props.C16Lex
+import Proofs.Utf8Text
 
 namespace Bexpr.Proofs.RoundTrip
 open Bexpr Bexpr.Peg Bexpr.Driver
@@ -25,30 +30,7 @@ open Bexpr Bexpr.Peg Bexpr.Driver
 abbrev G : Grammar := pinGrammar
 abbrev E : Env := pinEnv
 
-/-! ## 0. Positions on ASCII input -/
-
-/-- every byte is ASCII -/
-def Asc (s : GoString) : Prop := ∀ b ∈ s, b.toNat < 128
-
-theorem Asc.nil : Asc [] := by intro b hb; cases hb
-theorem Asc.cons {b : UInt8} {t : GoString} (hb : b.toNat < 128) (ht : Asc t) : Asc (b :: t) := by
-  intro c hc
-  rcases List.mem_cons.1 hc with rfl | h
-  · exact hb
-  · exact ht c h
-theorem Asc.head {b : UInt8} {t : GoString} (h : Asc (b :: t)) : b.toNat < 128 :=
-  h b (List.mem_cons_self ..)
-theorem Asc.tail {b : UInt8} {t : GoString} (h : Asc (b :: t)) : Asc t :=
-  fun c hc => h c (List.mem_cons_of_mem _ hc)
-theorem Asc.append {s t : GoString} (hs : Asc s) (ht : Asc t) : Asc (s ++ t) := by
-  intro c hc
-  rcases List.mem_append.1 hc with h | h
-  · exact hs c h
-  · exact ht c h
-theorem Asc.left {s t : GoString} (h : Asc (s ++ t)) : Asc s :=
-  fun c hc => h c (List.mem_append_left _ hc)
-theorem Asc.right {s t : GoString} (h : Asc (s ++ t)) : Asc t :=
-  fun c hc => h c (List.mem_append_right _ hc)
+/-! ## 0. Positions on valid text -/
 
 /-- The position at remaining input `s`, byte offset `off`. -/
 def ptAt (s : GoString) (off : Nat) : Pt :=
@@ -56,10 +38,6 @@ def ptAt (s : GoString) (off : Nat) : Pt :=
 
 /-- the position after the initial `read` of `parse` -/
 theorem start_next (input : GoString) : (Pt.start input).next = ptAt input 0 := rfl
-
-theorem decodeRune_asc {b : UInt8} (t : GoString) (hb : b.toNat < 128) :
-    Utf8.decodeRune (b :: t) = (b.toNat, 1) := by
-  simp [Utf8.decodeRune, hb]
 
 theorem ptAt_nil (off : Nat) : ptAt [] off = { rest := [], off := off, rn := 0xFFFD, w := 0 } := rfl
 
@@ -83,15 +61,61 @@ theorem atEOF_cons {b : UInt8} (t : GoString) (off : Nat) (hb : b.toNat < 128) :
   simp only [atEOF, runeError]
   simp
 
-/-- reading on into ASCII input logs nothing -/
-theorem logRead_asc (rule : String) {s : GoString} (off : Nat) (errs : List PErr) (hs : Asc s) :
+/-- **Stepping over a multi-byte rune.**  At a well-formed encoding of `r ≥ 0x80` the current
+    rune is `r` and its width the length of the encoding … -/
+theorem ptAt_rune {r : Nat} (t : GoString) (off : Nat) (hv : Utf8.validRune r = true)
+    (h80 : 0x80 ≤ r) :
+    ptAt (Utf8.encodeRune r ++ t) off =
+      { rest := Utf8.encodeRune r ++ t, off := off, rn := r, w := (Utf8.encodeRune r).length } := by
+  simp [ptAt, Utf8.decodeRune_encodeRune r hv h80 t]
+
+theorem ptAt_rn_rune {r : Nat} (t : GoString) (off : Nat) (hv : Utf8.validRune r = true)
+    (h80 : 0x80 ≤ r) : (ptAt (Utf8.encodeRune r ++ t) off).rn = r := by
+  rw [ptAt_rune t off hv h80]
+
+/-- … reading it advances by that width … -/
+theorem ptAt_next_rune {r : Nat} (t : GoString) (off : Nat) (hv : Utf8.validRune r = true)
+    (h80 : 0x80 ≤ r) :
+    (ptAt (Utf8.encodeRune r ++ t) off).next = ptAt t (off + (Utf8.encodeRune r).length) := by
+  rw [ptAt_rune t off hv h80]
+  simp [Pt.next, ptAt]
+
+theorem atEOF_rune {r : Nat} (t : GoString) (off : Nat) (hv : Utf8.validRune r = true)
+    (h80 : 0x80 ≤ r) : atEOF (ptAt (Utf8.encodeRune r ++ t) off) = false := by
+  rw [ptAt_rune t off hv h80]
+  have := encodeRune_length_ge2 h80
+  have h0 : ¬ ((Utf8.encodeRune r).length = 0) := by omega
+  simp [atEOF, h0]
+
+/-- … and arriving at valid text logs nothing (`read` logs `invalid encoding` exactly when the
+    rune decoded there is `(0xFFFD, 1)`; a well-formed U+FFFD has width 3). -/
+theorem logRead_vt (rule : String) {s : GoString} (off : Nat) (errs : List PErr) (hs : VT s) :
     logRead rule (ptAt s off) errs = errs := by
-  cases s with
-  | nil => rfl
-  | cons b t =>
-    rw [ptAt_cons t off hs.head]
-    have : ¬ (b.toNat = 65533) := by have := hs.head; omega
+  rcases RunesIn.inv hs with rfl | ⟨b, t, rfl, hb, _, _⟩ | ⟨r, t, rfl, hv, h80, _, _⟩
+  · rfl
+  · rw [ptAt_cons t off hb]
+    have : ¬ (b.toNat = 65533) := by omega
     simp [logRead, runeError, this]
+  · rw [ptAt_rune t off hv h80]
+    have := encodeRune_length_ge2 h80
+    have h1 : ¬ ((Utf8.encodeRune r).length = 1) := by omega
+    simp [logRead, h1]
+
+/-- the first rune of non-empty valid text: the position is not at EOF, reading moves past a
+    non-empty prefix `x` onto valid text, and the rune is an ASCII byte or `≥ 0x80` -/
+theorem VT.step {s : GoString} (hs : VT s) (hne : s ≠ []) (off : Nat) :
+    ∃ x t, s = x ++ t ∧ x ≠ [] ∧ VT t ∧ atEOF (ptAt s off) = false ∧
+      (ptAt s off).next = ptAt t (off + x.length) ∧
+      ((∃ b, x = [b] ∧ b.toNat < 128 ∧ (ptAt s off).rn = b.toNat) ∨ 128 ≤ (ptAt s off).rn) := by
+  rcases RunesIn.inv hs with rfl | ⟨b, t, rfl, hb, _, ht⟩ | ⟨r, t, rfl, hv, h80, _, ht⟩
+  · exact absurd rfl hne
+  · exact ⟨[b], t, rfl, by simp, ht, atEOF_cons t off hb, ptAt_next_cons t off hb,
+      .inl ⟨b, rfl, hb, ptAt_rn_cons t off hb⟩⟩
+  · refine ⟨Utf8.encodeRune r, t, rfl, ?_, ht, atEOF_rune t off hv h80,
+      ptAt_next_rune t off hv h80, .inr ?_⟩
+    · have := encodeRune_length_ge2 h80
+      intro h; rw [h] at this; simp at this
+    · rw [ptAt_rn_rune t off hv h80]; exact h80
 
 theorem sliceFrom_ptAt (x rest : GoString) (off : Nat) :
     sliceFrom (ptAt (x ++ rest) off) (ptAt rest (off + x.length)) = x := by
@@ -287,8 +311,6 @@ theorem Eats.cast {x' rest' : GoString} (h : Eats rule e fr x rest off errs fr' 
 
 end
 
-instance (s : GoString) : Decidable (Asc s) := by unfold Asc; infer_instance
-
 theorem EatsSeq.cast {rule : String} {es : List PExpr} {fr fr' : Frame} {x x' rest : GoString}
     {off : Nat} {errs : List PErr} {vs : List PVal}
     (h : EatsSeq rule es fr x rest off errs fr' vs) (hx : x = x') :
@@ -315,14 +337,14 @@ theorem FailsSeq.later' {rule : String} {e : PExpr} {es : List PExpr} {fr fr₁ 
 def runesOf (x : GoString) : List Nat := x.map (·.toNat)
 
 theorem semLit_ok (rule : String) (x rest : GoString) (off : Nat) (errs : List PErr)
-    (hx : Asc x) (hr : Asc rest) :
+    (hx : Asc x) (hr : VT rest) :
     SemLit rule (runesOf x) (ptAt (x ++ rest) off) errs (ptAt rest (off + x.length)) errs true := by
   induction x generalizing off with
   | nil => exact SemLit.nil
   | cons b t ih =>
     have hb := hx.head
     refine SemLit.step (ptAt_rn_cons _ _ hb) ?_
-    rw [List.cons_append, ptAt_next_cons _ _ hb, logRead_asc _ _ _ (hx.tail.append hr)]
+    rw [List.cons_append, ptAt_next_cons _ _ hb, logRead_vt _ _ _ (hx.tail.appendV hr)]
     have e : off + (b :: t).length = off + 1 + t.length := by simp; omega
     rw [e]
     exact ih (off + 1) hx.tail
@@ -330,34 +352,37 @@ theorem semLit_ok (rule : String) (x rest : GoString) (off : Nat) (errs : List P
 theorem toNat_inj {a b : UInt8} (h : a.toNat = b.toNat) : a = b := UInt8.toNat_inj.1 h
 
 theorem semLit_fail (rule : String) (x s : GoString) (off : Nat) (errs : List PErr)
-    (hx : Asc x) (hs : Asc s) (h : GoString.isPrefixOf x s = false) :
+    (hx : Asc x) (hs : VT s) (h : GoString.isPrefixOf x s = false) :
     ∃ pt', SemLit rule (runesOf x) (ptAt s off) errs pt' errs false := by
   induction x generalizing s off with
   | nil => simp [GoString.isPrefixOf] at h
   | cons a x ih =>
-    cases s with
-    | nil =>
-      refine ⟨_, SemLit.mismatch ?_⟩
+    rcases RunesIn.inv hs with rfl | ⟨b, t, rfl, hb, _, ht⟩ | ⟨r, t, rfl, hv, h80, _, _⟩
+    · refine ⟨_, SemLit.mismatch ?_⟩
       have := hx.head
       simp [ptAt, Utf8.decodeRune, Utf8.runeError]; omega
-    | cons b t =>
-      have hb := hs.head
-      by_cases hab : b = a
+    · by_cases hab : b = a
       · subst hab
         simp [GoString.isPrefixOf] at h
-        obtain ⟨pt', h'⟩ := ih t (off + 1) hx.tail hs.tail h
+        obtain ⟨pt', h'⟩ := ih t (off + 1) hx.tail ht h
         refine ⟨pt', SemLit.step (ptAt_rn_cons _ _ hb) ?_⟩
-        rw [ptAt_next_cons _ _ hb, logRead_asc _ _ _ hs.tail]
+        rw [ptAt_next_cons _ _ hb, logRead_vt _ _ _ ht]
         exact h'
       · refine ⟨_, SemLit.mismatch ?_⟩
         rw [ptAt_rn_cons _ _ hb]
         intro hc
         exact hab (toNat_inj hc)
+    · -- a multi-byte rune is no ASCII rune
+      refine ⟨_, SemLit.mismatch ?_⟩
+      rw [ptAt_rn_rune _ _ hv h80]
+      have := hx.head
+      show r ≠ a.toNat
+      omega
 
 variable {rule : String} {fr : Frame} {rest s : GoString} {off : Nat} {errs : List PErr}
 
 /-- A literal of ASCII runes matches when the input starts with those bytes, consuming them. -/
-theorem Eats.lit {ws : List Nat} (x : GoString) (hw : runesOf x = ws) (hx : Asc x) (hr : Asc rest) :
+theorem Eats.lit {ws : List Nat} (x : GoString) (hw : runesOf x = ws) (hx : Asc x) (hr : VT rest) :
     Eats rule (.lit ws false) fr x rest off errs fr (.bytes x) := by
   subst hw
   have := Sem.lit_ok (env := E) (g := G) (fr := fr) (semLit_ok rule x rest off errs hx hr)
@@ -365,14 +390,14 @@ theorem Eats.lit {ws : List Nat} (x : GoString) (hw : runesOf x = ws) (hx : Asc 
   exact this
 
 /-- … and fails, restoring the position and logging nothing, when it does not. -/
-theorem Fails.lit {ws : List Nat} (x : GoString) (hw : runesOf x = ws) (hx : Asc x) (hs : Asc s)
+theorem Fails.lit {ws : List Nat} (x : GoString) (hw : runesOf x = ws) (hx : Asc x) (hs : VT s)
     (h : GoString.isPrefixOf x s = false) :
     Fails rule (.lit ws false) fr s off errs := by
   subst hw
   obtain ⟨pt', h'⟩ := semLit_fail rule x s off errs hx hs h
   exact ⟨_, _, Sem.lit_fail h'⟩
 
-example (hr : Asc rest) : Eats rule (.lit [110, 111, 116] false) fr [110,111,116] rest off errs fr (.bytes [110,111,116]) :=
+example (hr : VT rest) : Eats rule (.lit [110, 111, 116] false) fr [110,111,116] rest off errs fr (.bytes [110,111,116]) :=
   Eats.lit _ rfl (by decide) hr
 
 
@@ -398,41 +423,73 @@ def headIn (p : Nat → Bool) (s : GoString) : Bool :=
   | b :: _ => p b.toNat
 
 theorem Eats.cls {chars ranges : List Nat} {b : UInt8} (hb : b.toNat < 128)
-    (hin : inCls chars ranges b.toNat = true) (hr : Asc rest) :
+    (hin : inCls chars ranges b.toNat = true) (hr : VT rest) :
     Eats rule (.charClass chars ranges [] false false) fr [b] rest off errs fr (.bytes [b]) := by
   have := Sem.class_ok (env := E) (g := G) (rule := rule) (fr := fr) (errs := errs)
     (pt := ptAt (b :: rest) off) (chars := chars) (ranges := ranges) (classes := [])
     (inverted := false) (hit := true) (atEOF_cons _ _ hb)
     (by rw [classMatches_plain, ptAt_rn_cons _ _ hb, hin]) (by decide)
-  rw [ptAt_next_cons _ _ hb, logRead_asc _ _ _ hr] at this
+  rw [ptAt_next_cons _ _ hb, logRead_vt _ _ _ hr] at this
   have e : sliceFrom (ptAt (b :: rest) off) (ptAt rest (off + 1)) = [b] :=
     sliceFrom_ptAt [b] rest off
   rw [e] at this
   exact this
 
-theorem Fails.cls {chars ranges : List Nat} (hs : Asc s)
+/-- a class without Unicode classes all of whose members are ASCII (every class of the bexpr
+    grammar except the JSON-pointer segment class) -/
+def ClsAsc (chars ranges : List Nat) : Prop := (∀ c ∈ chars, c < 128) ∧ (∀ r ∈ ranges, r < 128)
+
+instance (chars ranges : List Nat) : Decidable (ClsAsc chars ranges) := by
+  unfold ClsAsc; infer_instance
+
+theorem inRanges_lt (n : Nat) : ∀ (rs : List Nat), (∀ r ∈ rs, r < 128) →
+    classMatches.inRanges n rs = true → n < 128
+  | [], _, h => by simp [classMatches.inRanges] at h
+  | [_], _, h => by simp [classMatches.inRanges] at h
+  | lo :: hi :: rs, hb, h => by
+    simp only [classMatches.inRanges, Bool.or_eq_true, Bool.and_eq_true, decide_eq_true_eq] at h
+    rcases h with ⟨_, h2⟩ | h
+    · have := hb hi (by simp); omega
+    · exact inRanges_lt n rs (fun r hr => hb r (by simp [hr])) h
+
+theorem inCls_lt {chars ranges : List Nat} (hc : ∀ c ∈ chars, c < 128) (hr : ∀ r ∈ ranges, r < 128)
+    {n : Nat} (h : inCls chars ranges n = true) : n < 128 := by
+  simp only [inCls, Bool.or_eq_true, List.contains_eq_mem, decide_eq_true_eq] at h
+  rcases h with h | h
+  · exact hc n h
+  · exact inRanges_lt n ranges hr h
+
+/-- An ASCII-only class fails when the first byte is not in it: at the end of input, at an ASCII
+    byte outside the class, and at every multi-byte rune (`headIn` tests the first BYTE; a lead
+    byte is `≥ 0x80`, the rune `≥ 0x80`, neither is in the class). -/
+theorem Fails.cls {chars ranges : List Nat} (hca : ClsAsc chars ranges) (hs : VT s)
     (h : headIn (inCls chars ranges) s = false) :
     Fails rule (.charClass chars ranges [] false false) fr s off errs := by
-  cases s with
-  | nil => exact ⟨_, _, Sem.class_eof (atEOF_nil off)⟩
-  | cons b t =>
-    have hb := hs.head
-    refine ⟨_, _, Sem.class_fail (hit := false) (atEOF_cons _ _ hb) ?_ rfl⟩
+  rcases RunesIn.inv hs with rfl | ⟨b, t, rfl, hb, _, _⟩ | ⟨r, t, rfl, hv, h80, _, _⟩
+  · exact ⟨_, _, Sem.class_eof (atEOF_nil off)⟩
+  · refine ⟨_, _, Sem.class_fail (hit := false) (atEOF_cons _ _ hb) ?_ rfl⟩
     rw [classMatches_plain, ptAt_rn_cons _ _ hb]
     exact congrArg some h
+  · refine ⟨_, _, Sem.class_fail (hit := false) (atEOF_rune _ _ hv h80) ?_ rfl⟩
+    rw [classMatches_plain, ptAt_rn_rune _ _ hv h80]
+    congr 1
+    cases hc : inCls chars ranges r with
+    | false => rfl
+    | true => have := inCls_lt hca.1 hca.2 hc; omega
 
 /-- A starred ASCII class consumes exactly a prefix all of whose bytes are in the class, provided
     the next byte is not in the class (or the input ends). -/
-theorem EatsStar.cls {chars ranges : List Nat} (x : GoString) (hx : Asc x) (hr : Asc rest)
+theorem EatsStar.cls {chars ranges : List Nat} (hca : ClsAsc chars ranges) (x : GoString)
+    (hx : Asc x) (hr : VT rest)
     (hin : ∀ b ∈ x, inCls chars ranges b.toNat = true)
     (hstop : headIn (inCls chars ranges) rest = false) :
     EatsStar rule (.charClass chars ranges [] false false) x rest off errs
       (x.map fun b => .bytes [b]) := by
   induction x generalizing off with
-  | nil => exact EatsStar.stop (Fails.cls hr hstop)
+  | nil => exact EatsStar.stop (Fails.cls hca hr hstop)
   | cons b t ih =>
     have h1 : Eats rule (.charClass chars ranges [] false false) [] [b] (t ++ rest) off errs []
-        (.bytes [b]) := Eats.cls hx.head (hin b (List.mem_cons_self ..)) (hx.tail.append hr)
+        (.bytes [b]) := Eats.cls hx.head (hin b (List.mem_cons_self ..)) (hx.tail.appendV hr)
     exact EatsStar.more h1 (ih hx.tail (fun c hc => hin c (List.mem_cons_of_mem _ hc)))
 
 
@@ -465,23 +522,6 @@ theorem AllIn.append {p : Nat → Bool} {s t : GoString} (hs : AllIn p s) (ht : 
 theorem AllIn.asc {p : Nat → Bool} (hp : ∀ n, p n = true → n < 128) {x : GoString}
     (h : AllIn p x) : Asc x := fun b hb => hp _ (h b hb)
 
-theorem inRanges_lt (n : Nat) : ∀ (rs : List Nat), (∀ r ∈ rs, r < 128) →
-    classMatches.inRanges n rs = true → n < 128
-  | [], _, h => by simp [classMatches.inRanges] at h
-  | [_], _, h => by simp [classMatches.inRanges] at h
-  | lo :: hi :: rs, hb, h => by
-    simp only [classMatches.inRanges, Bool.or_eq_true, Bool.and_eq_true, decide_eq_true_eq] at h
-    rcases h with ⟨_, h2⟩ | h
-    · have := hb hi (by simp); omega
-    · exact inRanges_lt n rs (fun r hr => hb r (by simp [hr])) h
-
-theorem inCls_lt {chars ranges : List Nat} (hc : ∀ c ∈ chars, c < 128) (hr : ∀ r ∈ ranges, r < 128)
-    {n : Nat} (h : inCls chars ranges n = true) : n < 128 := by
-  simp only [inCls, Bool.or_eq_true, List.contains_eq_mem, decide_eq_true_eq] at h
-  rcases h with h | h
-  · exact hc n h
-  · exact inRanges_lt n ranges hr h
-
 theorem isWs_lt {n : Nat} (h : isWs n = true) : n < 128 := inCls_lt (by decide) (by decide) h
 theorem isAlpha_lt {n : Nat} (h : isAlpha n = true) : n < 128 := inCls_lt (by decide) (by decide) h
 theorem isIdc_lt {n : Nat} (h : isIdc n = true) : n < 128 := inCls_lt (by decide) (by decide) h
@@ -496,20 +536,20 @@ def bytesOf (x : GoString) : List PVal := x.map fun b => .bytes [b]
 
 /-- the rule `_`: a non-empty run of blanks, maximal -/
 theorem eats_ws {b : UInt8} {ws : GoString} (hws : AllIn isWs (b :: ws))
-    (hstop : headIn isWs rest = false) (hr : Asc rest) :
+    (hstop : headIn isWs rest = false) (hr : VT rest) :
     Eats rule (.ruleRef "_") fr (b :: ws) rest off errs fr (.list (bytesOf (b :: ws))) := by
   have ha : Asc (b :: ws) := hws.asc @isWs_lt
   apply Eats.ref look_ws (by decide)
-  exact Eats.plus (a := [b]) (Eats.cls ha.head hws.head (ha.tail.append hr))
-    (EatsStar.cls ws ha.tail hr hws.tail hstop)
+  exact Eats.plus (a := [b]) (Eats.cls ha.head hws.head (ha.tail.appendV hr))
+    (EatsStar.cls (by decide) ws ha.tail hr hws.tail hstop)
 
-theorem fails_ws (hs : Asc s) (h : headIn isWs s = false) :
+theorem fails_ws (hs : VT s) (h : headIn isWs s = false) :
     Fails rule (.ruleRef "_") fr s off errs :=
-  Fails.ref look_ws (by decide) (Fails.plus (Fails.cls hs h))
+  Fails.ref look_ws (by decide) (Fails.plus (Fails.cls (by decide) hs h))
 
 /-- `_?`: any run of blanks (possibly empty), maximal -/
 theorem eats_optWs {ws : GoString} (hws : AllIn isWs ws)
-    (hstop : headIn isWs rest = false) (hr : Asc rest) :
+    (hstop : headIn isWs rest = false) (hr : VT rest) :
     ∃ v, Eats rule (.zeroOrOne (.ruleRef "_")) fr ws rest off errs fr v := by
   cases ws with
   | nil => exact ⟨_, Eats.opt_none (fails_ws hr hstop)⟩
@@ -520,12 +560,13 @@ theorem eats_EOF : Eats rule (.ruleRef "EOF") fr [] [] off errs fr .nil := by
   apply Eats.ref look_EOF (by decide)
   exact Eats.notP ⟨_, _, Sem.any_eof (atEOF_nil off)⟩
 
-theorem fails_EOF {b : UInt8} {t : GoString} (hs : Asc (b :: t)) :
-    Fails rule (.ruleRef "EOF") fr (b :: t) off errs := by
+theorem fails_EOF (hs : VT s) (hne : s ≠ []) :
+    Fails rule (.ruleRef "EOF") fr s off errs := by
   refine Fails.ref look_EOF (by decide) ?_
+  obtain ⟨x, t, rfl, _, ht, heof, hnext, _⟩ := hs.step hne off
   have h := Sem.any_ok (env := E) (g := G) (rule := Pinned.Grammar.rule_36.shown) (fr := [])
-    (errs := errs) (atEOF_cons t off hs.head)
-  rw [ptAt_next_cons _ _ hs.head, logRead_asc _ _ _ hs.tail] at h
+    (errs := errs) heof
+  rw [hnext, logRead_vt _ _ _ ht] at h
   exact ⟨_, _, Sem.notP_res h⟩
 
 
@@ -547,18 +588,18 @@ theorem look_Identifier : lookupRule G "Identifier" = some Pinned.Grammar.rule_2
 
 /-- `Identifier <- [a-zA-Z] [a-zA-Z0-9_/]*` takes the maximal prefix and returns its text. -/
 theorem eats_Identifier {b : UInt8} {x : GoString} (hb : isAlpha b.toNat = true)
-    (hx : AllIn isIdc x) (hstop : headIn isIdc rest = false) (hr : Asc rest) :
+    (hx : AllIn isIdc x) (hstop : headIn isIdc rest = false) (hr : VT rest) :
     Eats rule (.ruleRef "Identifier") fr (b :: x) rest off errs fr (.str (b :: x)) := by
   have hxa : Asc x := hx.asc @isIdc_lt
   apply Eats.ref look_Identifier (by decide)
   apply Eats.action (av := .str (b :: x)) (ha := by rw [act_of_sem sem_onIdentifier1]; rfl)
   apply Eats.seq
-  exact EatsSeq.cons (a := [b]) (Eats.cls (isAlpha_lt hb) hb (hxa.append hr))
-    (EatsSeq.one (Eats.star (EatsStar.cls x hxa hr hx hstop)))
+  exact EatsSeq.cons (a := [b]) (Eats.cls (isAlpha_lt hb) hb (hxa.appendV hr))
+    (EatsSeq.one (Eats.star (EatsStar.cls (by decide) x hxa hr hx hstop)))
 
-theorem fails_Identifier (hs : Asc s) (h : headIn isAlpha s = false) :
+theorem fails_Identifier (hs : VT s) (h : headIn isAlpha s = false) :
     Fails rule (.ruleRef "Identifier") fr s off errs :=
-  Fails.ref look_Identifier (by decide) (Fails.action (Fails.seq (FailsSeq.here (Fails.cls hs h))))
+  Fails.ref look_Identifier (by decide) (Fails.action (Fails.seq (FailsSeq.here (Fails.cls (by decide) hs h))))
 
 
 /-! ## 7. `NumberLiteral` -/
@@ -589,12 +630,12 @@ theorem look_AfterNumbers : lookupRule G "AfterNumbers" = some Pinned.Grammar.ru
 theorem look_IntegerOrFloat : lookupRule G "IntegerOrFloat" = some Pinned.Grammar.rule_31 := rfl
 
 /-- `AfterNumbers <- &(_ / EOF / ")")` -/
-theorem eats_AfterNumbers (hr : Asc rest) (hf : numFollow rest = true) :
+theorem eats_AfterNumbers (hr : VT rest) (hf : numFollow rest = true) :
     Eats rule (.ruleRef "AfterNumbers") fr [] rest off errs fr .nil := by
   cases rest with
   | nil =>
     exact Eats.ref look_AfterNumbers (by decide) (Eats.andP (x := []) (rest := [])
-      (Eats.choice_next (fails_ws Asc.nil rfl) (Eats.choice_hit eats_EOF)))
+      (Eats.choice_next (fails_ws VT.nil rfl) (Eats.choice_hit eats_EOF)))
   | cons b t =>
     apply Eats.ref look_AfterNumbers (by decide)
     by_cases hb : isWs b.toNat = true
@@ -606,7 +647,7 @@ theorem eats_AfterNumbers (hr : Asc rest) (hf : numFollow rest = true) :
         · exact hb
         · exact hws d h
       exact Eats.andP (x := b :: ws) (rest := r')
-        (Eats.choice_hit (eats_ws hws' hstop hr.tail.right))
+        (Eats.choice_hit (eats_ws hws' hstop (VT.right (hws'.asc @isWs_lt) hr)))
     · have hb' : b = 41 := by
         simp only [numFollow, Bool.or_eq_true, beq_iff_eq] at hf
         rcases hf with h | h
@@ -616,10 +657,10 @@ theorem eats_AfterNumbers (hr : Asc rest) (hf : numFollow rest = true) :
       have h1 : Fails Pinned.Grammar.rule_30.shown (.ruleRef "_") [] ([41] ++ t) off errs :=
         fails_ws hr (by rfl)
       have h2 : Fails Pinned.Grammar.rule_30.shown (.ruleRef "EOF") [] ([41] ++ t) off errs :=
-        fails_EOF hr
+        fails_EOF hr (by simp)
       exact Eats.andP (x := [41]) (rest := t)
         (Eats.choice_next h1 (Eats.choice_next h2
-          (Eats.choice_hit (Eats.lit [41] rfl (by decide) hr.tail))))
+          (Eats.choice_hit (Eats.lit [41] rfl (by decide) (VT.tail (by decide) hr)))))
 
 /-- spelling of a number: sign, integer part (`0` or `[1-9][0-9]*`), fraction digits
     (`[]` = no fraction) -/
@@ -665,7 +706,7 @@ theorem isDigit_of_19 {n : Nat} (h : isDigit19 n = true) : isDigit n = true := b
 /-- the integer part -/
 theorem eats_intPart {int : GoString}
     (h : int = [48] ∨ ∃ d ds, int = d :: ds ∧ isDigit19 d.toNat = true ∧ AllIn isDigit ds)
-    (hstop : headIn isDigit rest = false) (hr : Asc rest) :
+    (hstop : headIn isDigit rest = false) (hr : VT rest) :
     ∃ v, Eats rule (.choice [.lit [48] false,
       .seq [.charClass [] [49, 57] [] false false,
         .zeroOrMore (.charClass [] [48, 57] [] false false)]]) fr int rest off errs fr v := by
@@ -678,12 +719,12 @@ theorem eats_intPart {int : GoString}
     have hp : GoString.isPrefixOf [48] (d :: ds ++ rest) = false := by
       simp [GoString.isPrefixOf, this]
     exact ⟨_, Eats.choice_next (Fails.lit [48] rfl (by decide)
-      (Asc.cons hdl (hdsa.append hr)) hp) (Eats.choice_hit (Eats.seq
-        (EatsSeq.cons (a := [d]) (Eats.cls hdl hd (hdsa.append hr))
-          (EatsSeq.one (Eats.star (EatsStar.cls ds hdsa hr hds hstop))))))⟩
+      (VT.cons hdl (hdsa.appendV hr)) hp) (Eats.choice_hit (Eats.seq
+        (EatsSeq.cons (a := [d]) (Eats.cls hdl hd (hdsa.appendV hr))
+          (EatsSeq.one (Eats.star (EatsStar.cls (by decide) ds hdsa hr hds hstop))))))⟩
 
 /-- `IntegerOrFloat` on a well-formed number spelling without the sign -/
-theorem eats_IntegerOrFloat (n : NumLit) (hn : n.WF) (hf : numFollow rest = true) (hr : Asc rest) :
+theorem eats_IntegerOrFloat (n : NumLit) (hn : n.WF) (hf : numFollow rest = true) (hr : VT rest) :
     ∃ v, Eats rule (.ruleRef "IntegerOrFloat") fr (n.int ++ n.fracText) rest off errs fr v := by
   obtain ⟨hint, hfrac⟩ := hn
   have hfa : Asc n.frac := hfrac.asc @isDigit_lt
@@ -719,13 +760,13 @@ theorem eats_IntegerOrFloat (n : NumLit) (hn : n.WF) (hf : numFollow rest = true
     have hstop' : headIn isDigit ([46] ++ ([f] ++ fs) ++ rest) = false := by
       simp [headIn, inCls, classMatches.inRanges]
     obtain ⟨v, hv⟩ := eats_intPart (rule := Pinned.Grammar.rule_31.shown) (fr := []) (off := off)
-      (errs := errs) (rest := [46] ++ ([f] ++ fs) ++ rest) hint hstop' (hfta.append hr)
+      (errs := errs) (rest := [46] ++ ([f] ++ fs) ++ rest) hint hstop' (hfta.appendV hr)
     rw [hft]
     exact ⟨_, Eats.ref look_IntegerOrFloat (by decide) (Eats.seq (EatsSeq.cons hv
       (EatsSeq.one (Eats.opt_some (Eats.seq
-        (EatsSeq.cons (Eats.lit [46] rfl (by decide) (hfa.append hr))
+        (EatsSeq.cons (Eats.lit [46] rfl (by decide) (hfa.appendV hr))
           (EatsSeq.one (Eats.plus (Eats.cls (isDigit_lt hfrac.head) hfrac.head
-            (hfa.tail.append hr)) (EatsStar.cls fs hfa.tail hr hfrac.tail hstop)))))))))⟩
+            (hfa.tail.appendV hr)) (EatsStar.cls (by decide) fs hfa.tail hr hfrac.tail hstop)))))))))⟩
 
 theorem NumLit.text_asc (n : NumLit) (hn : n.WF) : Asc n.text := by
   obtain ⟨hint, hfrac⟩ := hn
@@ -743,7 +784,7 @@ theorem NumLit.text_asc (n : NumLit) (hn : n.WF) : Asc n.text := by
 
 /-- `NumberLiteral` returns the text of a well-formed number followed by a blank, `)` or the
     end of input. -/
-theorem eats_NumberLiteral (n : NumLit) (hn : n.WF) (hf : numFollow rest = true) (hr : Asc rest) :
+theorem eats_NumberLiteral (n : NumLit) (hn : n.WF) (hf : numFollow rest = true) (hr : VT rest) :
     Eats rule (.ruleRef "NumberLiteral") fr n.text rest off errs fr (.str n.text) := by
   obtain ⟨v, hv⟩ := eats_IntegerOrFloat (rule := Pinned.Grammar.rule_29.shown) (fr := [])
     (off := off + n.sign.length) (errs := errs) n hn hf hr
@@ -752,8 +793,8 @@ theorem eats_NumberLiteral (n : NumLit) (hn : n.WF) (hf : numFollow rest = true)
       (n.int ++ n.fracText ++ rest) off errs [] v := by
     unfold NumLit.sign
     split
-    · exact ⟨_, Eats.opt_some (Eats.lit [45] rfl (by decide) (hbody.append hr))⟩
-    · refine ⟨_, Eats.opt_none (Fails.lit [45] rfl (by decide) (hbody.append hr) ?_)⟩
+    · exact ⟨_, Eats.opt_some (Eats.lit [45] rfl (by decide) (hbody.appendV hr))⟩
+    · refine ⟨_, Eats.opt_none (Fails.lit [45] rfl (by decide) (hbody.appendV hr) ?_)⟩
       -- the integer part does not start with '-'
       obtain ⟨hint, _⟩ := hn
       rcases hint with h | ⟨d, ds, h, hd, _⟩
@@ -779,76 +820,129 @@ theorem look_RawStringChar : lookupRule G "RawStringChar" = some Pinned.Grammar.
 theorem look_DoubleStringChar : lookupRule G "DoubleStringChar" = some Pinned.Grammar.rule_34 := rfl
 
 /-- `.` on an ASCII byte -/
-theorem Eats.any {b : UInt8} (hb : b.toNat < 128) (hr : Asc rest) :
+theorem Eats.any {b : UInt8} (hb : b.toNat < 128) (hr : VT rest) :
     Eats rule .any fr [b] rest off errs fr (.bytes [b]) := by
   have := Sem.any_ok (env := E) (g := G) (rule := rule) (fr := fr) (errs := errs)
     (pt := ptAt (b :: rest) off) (atEOF_cons _ _ hb)
-  rw [ptAt_next_cons _ _ hb, logRead_asc _ _ _ hr] at this
+  rw [ptAt_next_cons _ _ hb, logRead_vt _ _ _ hr] at this
   have e : sliceFrom (ptAt (b :: rest) off) (ptAt rest (off + 1)) = [b] :=
     sliceFrom_ptAt [b] rest off
   rw [e] at this
   exact this
 
-def strCharVal (c : UInt8) : PVal := .list [.nil, .bytes [c]]
+/-- `.` on a multi-byte rune: consumes its whole encoding, logs nothing -/
+theorem Eats.any_rune {r : Nat} (hv : Utf8.validRune r = true) (h80 : 0x80 ≤ r) (hr : VT rest) :
+    Eats rule .any fr (Utf8.encodeRune r) rest off errs fr (.bytes (Utf8.encodeRune r)) := by
+  have := Sem.any_ok (env := E) (g := G) (rule := rule) (fr := fr) (errs := errs)
+    (pt := ptAt (Utf8.encodeRune r ++ rest) off) (atEOF_rune _ _ hv h80)
+  rw [ptAt_next_rune _ _ hv h80, logRead_vt _ _ _ hr, sliceFrom_ptAt] at this
+  exact this
 
-/-- `XStringChar <- !'q' .` repeated over a body without `q`, up to the closing `q` -/
+/-- the bytes of a multi-byte encoding are not ASCII -/
+theorem encodeRune_ge80 {r : Nat} (h80 : 0x80 ≤ r) (hv : Utf8.validRune r = true) :
+    ∀ c ∈ Utf8.encodeRune r, 0x80 ≤ c.toNat := by
+  intro c hc
+  have hv' : r < 0xD800 ∨ (0xDFFF < r ∧ r ≤ 0x10FFFF) := by
+    unfold Utf8.validRune Utf8.maxRune at hv
+    simp only [Bool.or_eq_true, Bool.and_eq_true, decide_eq_true_eq] at hv
+    exact hv
+  by_cases h2 : r ≤ 0x7FF
+  · rw [Utf8.encodeRune_2 h80 h2] at hc
+    simp only [List.mem_cons, List.not_mem_nil, or_false] at hc
+    rcases hc with rfl | rfl <;> (rw [Utf8.toNat_toUInt8_of_lt (by omega)]; omega)
+  · by_cases h3 : r ≤ 0xFFFF
+    · rw [Utf8.encodeRune_3 (by omega) h3 (by omega)] at hc
+      simp only [List.mem_cons, List.not_mem_nil, or_false] at hc
+      rcases hc with rfl | rfl | rfl <;> (rw [Utf8.toNat_toUInt8_of_lt (by omega)]; omega)
+    · rw [Utf8.encodeRune_4 (by omega) (by omega)] at hc
+      simp only [List.mem_cons, List.not_mem_nil, or_false] at hc
+      rcases hc with rfl | rfl | rfl | rfl <;> (rw [Utf8.toNat_toUInt8_of_lt (by omega)]; omega)
+
+/-- `XStringChar <- !'q' .` repeated over a body of valid text without the byte `q`, up to the
+    closing `q`: ASCII bytes one by one, multi-byte runes whole -/
 theorem eatsStar_until {name : String} {r : Rule} {q : UInt8} (hl : lookupRule G name = some r)
     (hn : name ≠ "") (he : r.expr = .seq [.notP (.lit [q.toNat] false), .any])
-    (hq : q.toNat < 128) (body : GoString) (hb : Asc body) (hnq : ∀ c ∈ body, c ≠ q)
-    (hr : Asc rest) :
-    EatsStar rule (.ruleRef name) body (q :: rest) off errs (body.map strCharVal) := by
-  induction body generalizing off with
+    (hq : q.toNat < 128) (body : GoString) (hb : VT body) (hnq : ∀ c ∈ body, c ≠ q)
+    (hr : VT rest) :
+    ∃ vs, EatsStar rule (.ruleRef name) body (q :: rest) off errs vs := by
+  have hb' : RunesIn (fun _ => true) body := hb
+  clear hb
+  induction hb' generalizing off with
   | nil =>
-    apply EatsStar.stop
+    refine ⟨_, EatsStar.stop ?_⟩
     apply Fails.ref hl hn
     rw [he]
     exact Fails.seq (FailsSeq.here (Fails.notP (x := [q]) (Eats.lit [q] rfl
       (Asc.cons hq Asc.nil) hr)))
-  | cons c t ih =>
-    have hc := hb.head
+  | @asc c t hc _ ht ih =>
+    have ht' : VT t := ht
     have hcq : c ≠ q := hnq c (List.mem_cons_self ..)
-    have hrest : Asc (t ++ q :: rest) := hb.tail.append (Asc.cons hq hr)
+    have hrest : VT (t ++ q :: rest) := ht'.append (VT.cons hq hr)
     have hp : GoString.isPrefixOf [q] (c :: (t ++ q :: rest)) = false := by
       have : ¬ q = c := fun h => hcq h.symm
       simp [GoString.isPrefixOf, this]
     have h1 : Eats r.shown (.notP (.lit [q.toNat] false)) [] [] (c :: (t ++ q :: rest)) off errs []
-        .nil := Eats.notP (Fails.lit [q] rfl (Asc.cons hq Asc.nil) (Asc.cons hc hrest) hp)
+        .nil := Eats.notP (Fails.lit [q] rfl (Asc.cons hq Asc.nil) (VT.cons hc hrest) hp)
     have h2 : Eats r.shown .any [] [c] (t ++ q :: rest) (off + ([] : GoString).length) errs []
         (.bytes [c]) := Eats.any hc hrest
-    have h12 : Eats rule (.ruleRef name) [] [c] (t ++ q :: rest) off errs [] (strCharVal c) := by
+    have h12 : Eats rule (.ruleRef name) [] [c] (t ++ q :: rest) off errs []
+        (.list [.nil, .bytes [c]]) := by
       apply Eats.ref hl hn
       rw [he]
       exact Eats.seq (EatsSeq.cons (a := []) h1 (EatsSeq.one h2))
-    exact EatsStar.more (a := [c]) h12
-      (ih hb.tail (fun d hd => hnq d (List.mem_cons_of_mem _ hd)))
+    obtain ⟨vs, hvs⟩ := ih (off := off + ([c] : GoString).length)
+      (fun d hd => hnq d (List.mem_cons_of_mem _ hd))
+    exact ⟨_, EatsStar.more (a := [c]) h12 hvs⟩
+  | @rune ρ t hv h80 _ ht ih =>
+    have ht' : VT t := ht
+    have hrest : VT (t ++ q :: rest) := ht'.append (VT.cons hq hr)
+    obtain ⟨c, ch, hec, hc80, _⟩ := encodeRune_cons h80
+    have hp : GoString.isPrefixOf [q] (Utf8.encodeRune ρ ++ (t ++ q :: rest)) = false := by
+      have : ¬ q = c := by intro h; subst h; omega
+      rw [hec]
+      simp [GoString.isPrefixOf, this]
+    have h1 : Eats r.shown (.notP (.lit [q.toNat] false)) [] []
+        (Utf8.encodeRune ρ ++ (t ++ q :: rest)) off errs [] .nil :=
+      Eats.notP (Fails.lit [q] rfl (Asc.cons hq Asc.nil) (VT.rune hv h80 hrest) hp)
+    have h2 : Eats r.shown .any [] (Utf8.encodeRune ρ) (t ++ q :: rest)
+        (off + ([] : GoString).length) errs [] (.bytes (Utf8.encodeRune ρ)) :=
+      Eats.any_rune hv h80 hrest
+    have h12 : Eats rule (.ruleRef name) [] (Utf8.encodeRune ρ) (t ++ q :: rest) off errs []
+        (.list [.nil, .bytes (Utf8.encodeRune ρ)]) := by
+      apply Eats.ref hl hn
+      rw [he]
+      exact Eats.seq (EatsSeq.cons (a := []) h1 (EatsSeq.one h2))
+    obtain ⟨vs, hvs⟩ := ih (off := off + (Utf8.encodeRune ρ).length)
+      (fun d hd => hnq d (List.mem_append_right _ hd))
+    exact ⟨_, EatsStar.more (a := Utf8.encodeRune ρ) h12 hvs⟩
 
-/-- A delimited literal: the body between two `q` (a backquote or a double quote) contains no
-    `q`; the token is handed to `strconv.Unquote`. -/
+/-- A delimited literal: the body between two `q` (a backquote or a double quote) is valid
+    UTF-8 text without the byte `q`; the token is handed to `strconv.Unquote`. -/
 theorem eats_StringLiteral {q : UInt8} (hq : q = 0x60 ∨ q = 0x22) (body s' : GoString)
-    (hb : Asc body) (hnq : ∀ c ∈ body, c ≠ q)
-    (hu : Strconv.unquote ([q] ++ (body ++ [q])) = some s') (hr : Asc rest) :
+    (hb : VT body) (hnq : ∀ c ∈ body, c ≠ q)
+    (hu : Strconv.unquote ([q] ++ (body ++ [q])) = some s') (hr : VT rest) :
     Eats rule (.ruleRef "StringLiteral") fr ([q] ++ (body ++ [q])) rest off errs fr (.str s') := by
   have hact : E.action "onStringLiteral2" [] ([q] ++ (body ++ [q])) = .ret (.str s') none := by
     rw [act_of_sem sem_onStringLiteral2]
     simp only [runActionSem, hu]
   rcases hq with rfl | rfl
-  · have hstar := eatsStar_until (rule := Pinned.Grammar.rule_32.shown) (off := off + 1)
+  · obtain ⟨vs, hstar⟩ := eatsStar_until (rule := Pinned.Grammar.rule_32.shown) (off := off + 1)
       (errs := errs) (q := 0x60) look_RawStringChar (by decide) rfl
       (show (0x60 : UInt8).toNat < 128 by decide) body hb hnq hr
     have hseq := EatsSeq.cons (Eats.lit (rule := Pinned.Grammar.rule_32.shown) (fr := [])
       (off := off) (errs := errs) [0x60] rfl (by decide)
-      ((hb.append (Asc.cons (b := 0x60) (by decide) Asc.nil)).append hr))
+      ((hb.append (VT.cons (b := 0x60) (by decide) VT.nil)).append hr))
       (EatsSeq.cons (Eats.star hstar) (EatsSeq.one (Eats.lit [0x60] rfl (by decide) hr)))
     exact Eats.ref look_StringLiteral (by decide) (Eats.choice_hit (Eats.action
       (Eats.choice_hit (Eats.seq hseq)) hact))
-  · have hstar := eatsStar_until (rule := Pinned.Grammar.rule_32.shown) (off := off + 1)
+  · obtain ⟨vs, hstar⟩ := eatsStar_until (rule := Pinned.Grammar.rule_32.shown) (off := off + 1)
       (errs := errs) (q := 0x22) look_DoubleStringChar (by decide) rfl
       (show (0x22 : UInt8).toNat < 128 by decide) body hb hnq hr
-    have hall : Asc ([0x22] ++ (body ++ [0x22]) ++ rest) :=
-      (Asc.cons (by decide) (hb.append (Asc.cons (by decide) Asc.nil))).append hr
+    have hall : VT ([0x22] ++ (body ++ [0x22]) ++ rest) :=
+      (VT.cons (by decide) (hb.append (VT.cons (by decide) VT.nil))).append hr
     have hseq := EatsSeq.cons (Eats.lit (rule := Pinned.Grammar.rule_32.shown) (fr := [])
       (off := off) (errs := errs) [0x22] rfl (by decide)
-      ((hb.append (Asc.cons (b := 0x22) (by decide) Asc.nil)).append hr))
+      ((hb.append (VT.cons (b := 0x22) (by decide) VT.nil)).append hr))
       (EatsSeq.cons (Eats.star hstar) (EatsSeq.one (Eats.lit [0x22] rfl (by decide) hr)))
     have hf : Fails Pinned.Grammar.rule_32.shown (.seq [.lit [96] false,
         .zeroOrMore (.ruleRef "RawStringChar"), .lit [96] false]) []
@@ -857,52 +951,23 @@ theorem eats_StringLiteral {q : UInt8} (hq : q = 0x60 ∨ q = 0x22) (body s' : G
     exact Eats.ref look_StringLiteral (by decide) (Eats.choice_hit (Eats.action
       (Eats.choice_next hf (Eats.choice_hit (Eats.seq hseq))) hact))
 
-/-- Backquoted literal: the bytes between the backquotes, verbatim (no backquote, no `\r`). -/
-theorem eats_StringLiteral_backtick (s' : GoString) (hs : Asc s')
-    (hnq : ∀ c ∈ s', c ≠ 0x60 ∧ c ≠ 0x0D) (hr : Asc rest) :
+/-- Backquoted literal: the bytes between the backquotes, verbatim — any valid UTF-8 text
+    without backquote and `\r`. -/
+theorem eats_StringLiteral_backtick (s' : GoString) (hs : VT s')
+    (hnq : ∀ c ∈ s', c ≠ 0x60 ∧ c ≠ 0x0D) (hr : VT rest) :
     Eats rule (.ruleRef "StringLiteral") fr ([0x60] ++ (s' ++ [0x60])) rest off errs fr (.str s') :=
   eats_StringLiteral (.inl rfl) s' s' hs (fun c hc => (hnq c hc).1)
     (by simpa using Props.C16Lex.unquote_quote_backtick s' hnq) hr
 
 /-- Double-quoted literal as written by the renderer `quoteX22` (`strconv.Quote` with `\x22`
-    for `"`): denotes the original string.  RESTRICTION: the rendered text is ASCII. -/
-theorem eats_StringLiteral_quoteX22 (s' : GoString) (ha : Asc (Strconv.quoteX22 s'))
-    (hr : Asc rest) :
+    for `"`): denotes the original string, for EVERY byte string `s'` — valid UTF-8 or not,
+    printable or not (printable non-ASCII runes are written raw, everything else as an ASCII
+    escape, so the rendering is always valid text: `quoteX22_body`). -/
+theorem eats_StringLiteral_quoteX22 (s' : GoString) (hr : VT rest) :
     Eats rule (.ruleRef "StringLiteral") fr (Strconv.quoteX22 s') rest off errs fr (.str s') := by
-  obtain ⟨body, hbody, hnq⟩ := Props.C16Lex.quoteX22_no_inner_quote s'
+  obtain ⟨body, hbody, hnq, hb⟩ := quoteX22_body s'
   have hu := Props.C16Lex.unquote_quote_double_x22 s'
-  rw [hbody] at hu ha ⊢
-  have hb : Asc body := by
-    have : Asc (body ++ [0x22]) := Asc.tail (b := 0x22) (by simpa using ha)
-    exact this.left
-  exact eats_StringLiteral (.inr rfl) body s' hb hnq (by simpa using hu) hr
-
-/-! ## 9. The renderer's double-quoted literal stays ASCII -/
-
-theorem escapedRuneX22_asc : ∀ r, r < 128 → Asc (Strconv.escapedRuneX22 r) := by decide +kernel
-
-theorem quoteBodyWith_asc (n : Nat) (s : GoString) (hs : Asc s) :
-    Asc (Strconv.quoteBodyWith Strconv.escapedRuneX22 n s) := by
-  induction n generalizing s with
-  | zero => cases s <;> exact Asc.nil
-  | succ n ih =>
-    cases s with
-    | nil => exact Asc.nil
-    | cons b t =>
-      have hb := hs.head
-      have hd := decodeRune_asc t hb
-      have hne : ¬ (b.toNat = 65533) := by omega
-      simp only [Strconv.quoteBodyWith, hd, Utf8.runeError]
-      simp only [beq_self_eq_true, Bool.true_and, beq_iff_eq, hne, if_false]
-      exact (escapedRuneX22_asc _ hb).append (ih _ hs.tail)
-
-/-- the renderer's double-quoted literal of an ASCII string is ASCII -/
-theorem quoteX22_asc (s : GoString) (hs : Asc s) : Asc (Strconv.quoteX22 s) :=
-  Asc.cons (by decide) ((quoteBodyWith_asc _ s hs).append (Asc.cons (by decide) Asc.nil))
-
-/-- Double-quoted literal written by `quoteX22` for an ASCII string: denotes that string. -/
-theorem eats_StringLiteral_quoteX22_asc (s' : GoString) (hs : Asc s') (hr : Asc rest) :
-    Eats rule (.ruleRef "StringLiteral") fr (Strconv.quoteX22 s') rest off errs fr (.str s') :=
-  eats_StringLiteral_quoteX22 s' (quoteX22_asc s' hs) hr
+  rw [hbody] at hu ⊢
+  exact eats_StringLiteral (.inr rfl) body s' hb hnq hu hr
 
 end Bexpr.Proofs.RoundTrip
